@@ -98,7 +98,7 @@ func init() {
 		ID: "C10", LeanMods: []string{"CrsProps.C10"},
 		Corr: "K1 (directive regexps vs recognisers), K6 (processLine/processFile), K2 (Parse before/after)",
 		Rule: "assembly programs with disturbed directive spacing and indentation, and arbitrary line material (comment lines that look like directives, unbalanced markers, odd arguments); generate and parse compared before/after format, white-space-stripped line sequences compared; non-trivial = format changes the file; distinct by bytes",
-		Gen:  genC10,
+		Gen:  genC10, Escalate: escalateFormat,
 		Assume: []string{"known finding D23: a dangling `--` without replacement pairs is dropped by format (the compiled regex is unaffected)",
 			"known finding D22 (CR CR LF)"},
 	}
